@@ -392,6 +392,11 @@ func clientvCmd(out *cq.Out, seed uint64, tier string) {
 				srv.mode = mode
 				a, present := index[string(d)]
 				truth := present && a <= v
+				if present && a <= v {
+					if _, ok := srv.honestMemb(lg, d, &v); !ok {
+						out.Violate("C01:no-answer-for-a-stored-event", fmt.Sprintf("QueryDigestMembershipConsistency(event of version %d, version %d) on a %d-event log returns no answer", a, v, sp.n), map[string]interface{}{"seed": seed, "log": li, "events": sp.n, "inserted_at": a, "query_version": v})
+					}
+				}
 				desc := map[string]interface{}{"seed": seed, "tier": tier, "log": li, "events": sp.n, "mode": mode, "digest": fmt.Sprintf("%x", d), "query_version": v, "inserted_at": a, "present": present, "alt": srv.alt, "alt2": srv.alt2, "round": t}
 				// --- MembershipAutoVerify(d, &v)
 				var ok bool
@@ -469,6 +474,9 @@ func clientvCmd(out *cq.Out, seed uint64, tier string) {
 				answered, fetched := srv.lastIncr, append([]uint64{}, srv.fetched...)
 				srv.mu.Unlock()
 				same := gok && sameIncr(answered, genuine)
+				if !gok {
+					out.Violate("C03:no-proof-for-a-valid-pair", fmt.Sprintf("Balloon.QueryConsistency(%d, %d) on a %d-event log (newest version %d) returns no proof", s, e, sp.n, cur), desc)
+				}
 				switch {
 				case class != "ok":
 					out.Violate("C12:"+class+":client.IncrementalAutoVerify", fmt.Sprintf("client.IncrementalAutoVerify %s on a %s answer (%s %.150s)", class, mode, site, msg), desc)
